@@ -6,10 +6,10 @@
 //! straight into the real implementation, so a change in the implementation is executed
 //! by the harness, not bypassed.
 
+pub mod ctx;
+pub mod misc;
+pub mod net;
 pub mod pipes;
 pub mod pure;
-pub mod ctx;
-pub mod net;
-pub mod misc;
 pub mod spin;
 pub mod tunnel;
